@@ -19,7 +19,7 @@ RULE = ("schemas built top-down to depth <= 4 with every combination of schema-l
         "random format, flat and nested) never override a variable but do set unbound fields, explicit assignment "
         "does; wrongly predicted names are detected because the predicted variable is the only one set; non-trivial = "
         ">= 1 bound field with a non-empty variable and >= 1 unbound or unset field; distinct = distinct case content")
-REQUIRED = ("loads_with_undecodable_values_for_bound_fields", "variables_rejected_by_validator_callback:boom",
+REQUIRED = ("sections_built_with_key_and_env_arguments", "upper_case_decoys_for_lower_case_names", "loads_with_undecodable_values_for_bound_fields", "variables_rejected_by_validator_callback:boom",
             "second_build_after_environment_change", "family:bytes", "style:auto", "style:getitem", "style:dotted", "list_item_bound_checked", "list_item_document_names_bound_field",
             "setting:ctype-True", "setting:ctype-named", "constructed_ok", "bound_values_checked", "unbound_defaults_checked", "invalid_variable_rejected",
             "loads_do_not_override_checked", "loads_set_unbound_checked", "assignment_overrides_checked",
@@ -72,6 +72,7 @@ def gen_node(rng, depth, counter, used):
                 s = rng.choice(["VFP%d", "vfp%d", "Vf_P%d", "VFP%d"]) % counter[0]
             if s is not None:
                 sub["env"] = s
+                sub["ctor_key"] = rng.random() < 0.35
             else:
                 sub["style"] = rng.choice([None, None, "auto", "getitem", "dotted"])
             fields.append(sub)
@@ -125,6 +126,12 @@ def draw_environ(rng, root):
                 del environ[name]
     # decoys: plausible but wrong names for fields the model says are unbound - they must have no effect
     taken = {n for _p, _nd, n in names if n}
+    # ... and the upper-case spelling of a name that has lower-case letters, while the exact variable is unset or empty
+    for path, node, name in names:
+        if name and name != name.upper() and not environ.get(name) and name.upper() not in taken and name.upper() not in environ:
+            v = gen.one_value(rng, node, rng.choice(["valid", "valid", "invalid"]), gen.GEN_ENV)
+            if isinstance(v, str) and v and "\x00" not in v:
+                environ[name.upper()] = v
     for path, node, name in names:
         if name is None and rng.random() < 0.6:
             for decoy in (node["key"].upper(), path.replace(".", "_").upper(), "_" + path.replace(".", "_").upper()):
@@ -253,6 +260,8 @@ def _settings_seen(res, root):
                     res.count("setting:schema-disabled")
                 if depth + 1 >= 3:
                     res.count("depth>=3")
+                if ch.get("ctor_key") and e is not None:
+                    res.count("sections_built_with_key_and_env_arguments")
                 if ch.get("style") and e is None and ch["fields"]:
                     res.count("style:" + ch["style"])
                 walk(ch, depth + 1)
@@ -309,6 +318,8 @@ def run(case, ctx, res):
     if any(n in os.environ for e in rounds for n in e):
         return
     _settings_seen(res, root)
+    if any(n and n != n.upper() and not rounds[0].get(n) and rounds[0].get(n.upper()) for _p, _nd, n in names):
+        res.count("upper_case_decoys_for_lower_case_names")
     os.environ.update(rounds[0])
     built = spec.build(cc, root)
     for i, environ in enumerate(rounds):
